@@ -14,3 +14,4 @@ import RSVerif.Properties.C08
 #print axioms RS.source_supports_is_envelope
 #print axioms RS.source_validate
 #print axioms RS.source_work_counts
+#print axioms RS.source_reset_work
